@@ -94,4 +94,16 @@ for t, shape in itertools.product(range(40 if tier != 'quick' else 30), ((8, 8),
         np.random.set_state(st)
     if img is not None:
         d.check(img.shape == tuple(shape) and np.all(np.isfinite(img)) and img.min() >= 0, {'state': t, 'shape': shape})
+for t, shape in itertools.product(range(12), ((6, 6), (5, 9))):
+    # expected number of rays far below one: most random states draw no ray at all
+    st = np.random.get_state()
+    np.random.seed(5000 + t)
+    img = None
+    try:
+        with d.case({'state': t, 'shape': shape, 'rays': 'almost none'}):
+            img = lentil.detector.cosmic_rays(shape, (5e-6, 5e-6, 3e-6), 1.0, rate=0.05 / (shape[0] * 5e-6 * shape[1] * 5e-6))
+    finally:
+        np.random.set_state(st)
+    if img is not None:
+        d.check(np.shape(img) == tuple(shape) and bool(np.all(np.isfinite(img))) and np.min(img) >= 0, {'state': t, 'shape': shape, 'rays': 'almost none', 'got_shape': np.shape(img)})
 emit([a, b, c, d])
